@@ -193,6 +193,15 @@ func CorpusHistories(scratch string, names map[string]bool) ([]*History, []strin
 				if ph() != nil {
 					return []*TxSpec{s.TxVote(s.Val(0), ph(), 0), s.TxVote(s.Val(1), ph(), 0)}
 				}
+			case 5: // votes by a recorded voter, inside the window, for options that do not exist: refused, no panic
+				if ph() != nil {
+					bad := func(choice int32) *TxSpec {
+						t := s.TxVote(s.Val(2), ph(), choice)
+						t.Note = "vote-bad-choice"
+						return t
+					}
+					return []*TxSpec{bad(2), bad(3), bad(-1), bad(1 << 30)}
+				}
 			case 6:
 				if ph() != nil {
 					return []*TxSpec{s.TxVote(s.Val(1), ph(), 1)}
